@@ -168,6 +168,30 @@ func classify(v ssa.Value, depth int, seen map[ssa.Value]bool) class {
 	return class{"unknown", fmt.Sprintf("%T", v)}
 }
 
+// storageOfGlobal: v designates (part of) the storage of a package-level variable itself -- reached by slicing,
+// indexing or field selection only, with no load in between (a pointer merely stored in a global is something else).
+func storageOfGlobal(v ssa.Value) *ssa.Global {
+	for i := 0; i < 20; i++ {
+		switch x := v.(type) {
+		case *ssa.Global:
+			return x
+		case *ssa.Slice:
+			v = x.X
+		case *ssa.IndexAddr:
+			v = x.X
+		case *ssa.FieldAddr:
+			v = x.X
+		case *ssa.ChangeType:
+			v = x.X
+		case *ssa.Convert:
+			v = x.X
+		default:
+			return nil
+		}
+	}
+	return nil
+}
+
 type effect struct{ text string }
 
 func coqStr(s string) string { return "\"" + strings.ReplaceAll(s, "\"", "'") + "\"" }
@@ -314,6 +338,16 @@ func main() {
 							addCall(v.Fn.(*ssa.Function))
 						default:
 							effs = append(effs, "ECallDyn "+coqStr(short(cc.Value.Type().String())))
+						}
+					}
+					// the storage of a package-level variable handed to code outside the module (a slice of a global array,
+					// the address of a global or of one of its fields / elements): the callee may write into it
+					if callee := cc.StaticCallee(); cc.IsInvoke() || callee == nil || !inModule(callee) {
+						for _, a := range cc.Args {
+							if g := storageOfGlobal(a); g != nil {
+								effs = append(effs, "EWrite "+wclass(class{"global", short(g.String())})+" "+coqStr(where+" escapes to a call outside the module"))
+								nwrites++
+							}
 						}
 					}
 					// functions passed as arguments may be called by the callee
